@@ -46,7 +46,7 @@ Definition fl_pandas   := mkfl false false false false false false false false t
 Definition fl_spec     := mkfl false false false false false false false false false.
 Definition fl_sqlite   := mkfl true  true  false false true  true  true  false false.   (* maximum/minimum propagate, fmax/fmin skip a NULL since /repo 9699787 *)
 Definition fl_postgres := mkfl true  true  false false true  true  false true  false.
-Definition fl_polars   := mkfl true  true  true  false true  false true  true  false.
+Definition fl_polars   := mkfl true  true  false false true  false true  true  false.   (* maximum/minimum propagate a missing operand since the Polars fix in /repo *)
 
 Definition num2 (f : Q -> Q -> Q) (a b : val) : val :=
   match num_of a, num_of b with Some x, Some y => qn (f x y) | _, _ => VNull end.
